@@ -86,3 +86,25 @@ Definition poly_bad_cases (cs : list poly_case) : list Z :=
     if list_eqb pevent_eqb ev (pc_iter c) && list_eqb pevent_eqb (poly_id_events (pc_pts c) (pc_closed c)) (pc_ids c)
        && list_eqb pevent_eqb ra (pc_random c)
     then [] else [pc_id c]) cs.
+
+(* ---- command buffer (PathCommands): the EventIds returned by the builder calls, the ids visited by
+   event() / next_event_id_in_path from EventId(0) and next_event_id_in_sub_path at each of them, against the
+   model of commands.rs (EventIds are positions in the modelled buffer) *)
+From LV Require Import Model.Commands.
+Record cmd_case := mkCmd { cc_id : Z; cc_prog : list cop; cc_ids : list Z; cc_walk : list Z; cc_subs : list Z }.
+Definition cmd_bad_cases (cs : list cmd_case) : list Z :=
+  flat_map (fun c =>
+    let cmds := cmd_build (cc_prog c) in
+    let walk := match cc_prog c with
+                | [] => Some []
+                | _ => match cmd_walk (length cmds) cmds 0 with ROk l => Some (map fst l) | _ => None end
+                end in
+    let ok :=
+      list_eqb Z.eqb (cmd_build_ids (cc_prog c)) (cc_ids c)
+      && match walk with
+         | Some ids =>
+             list_eqb Z.eqb ids (cc_walk c)
+             && list_eqb Z.eqb (map (fun i => match cmd_next_in_sub_path cmds i with Some j => j | None => (-1)%Z end) ids) (cc_subs c)
+         | None => false
+         end in
+    if ok then [] else [cc_id c]) cs.
